@@ -1,6 +1,7 @@
 package chk
 
 import (
+	"go/token"
 	"fmt"
 	"go/types"
 	"sort"
@@ -132,6 +133,9 @@ func scratchField(v ssa.Value, before ssa.Instruction, tname string) string {
 
 // fixedResultLen: length of the []byte a straight-line function returns by appending single bytes.
 func fixedResultLen(fn *ssa.Function) (int64, bool) {
+	if fn != nil && len(fn.Blocks) > 1 {
+		return fixedResultLenLoop(fn)
+	}
 	if fn == nil || len(fn.Blocks) != 1 {
 		return 0, false
 	}
@@ -333,4 +337,117 @@ func ruleSTLLayouts(p *Prog, l *Ledger, tier string) {
 	} else {
 		l.Undecide(rule, "ttiBlock.bytes", rule+"|TTI|extract", p.Pos(tw.Pos()), "extraction-below-minimum: the TTI writer is no longer a sequence of constant-width appends")
 	}
+}
+
+// fixedResultLenLoop: the same for a function with one range loop over a collection of constant
+// length N (a package-level slice or array literal, an array value): appends in blocks that every
+// trip goes through count N times, appends in blocks every call goes through count once; any other
+// append makes the length variable.
+func fixedResultLenLoop(fn *ssa.Function) (int64, bool) {
+	loops := loopsOf(fn)
+	if len(loops) != 1 || loops[0].header.Comment != "rangeindex.loop" {
+		return 0, false
+	}
+	li := loops[0]
+	// trip count: the bound the range index is compared with
+	trips := int64(-1)
+	for _, ins := range li.header.Instrs {
+		bo, ok := ins.(*ssa.BinOp)
+		if !ok || bo.Op != token.LSS {
+			continue
+		}
+		if c, ok := constInt(bo.Y); ok {
+			trips = c
+		} else if lc, ok := bo.Y.(*ssa.Call); ok {
+			if bi, ok := lc.Call.Value.(*ssa.Builtin); ok && bi.Name() == "len" {
+				if u, ok := lc.Call.Args[0].(*ssa.UnOp); ok {
+					if g, ok := u.X.(*ssa.Global); ok {
+						if n, ok := globalLiteralLen(fn.Prog, g); ok {
+							trips = n
+						}
+					}
+				}
+			}
+		}
+	}
+	if trips < 0 {
+		return 0, false
+	}
+	var ret *ssa.BasicBlock
+	for _, b := range fn.Blocks {
+		if _, ok := b.Instrs[len(b.Instrs)-1].(*ssa.Return); ok {
+			if ret != nil {
+				return 0, false
+			}
+			ret = b
+		}
+	}
+	if ret == nil {
+		return 0, false
+	}
+	n := int64(0)
+	for _, b := range fn.Blocks {
+		for _, ins := range b.Instrs {
+			c, ok := ins.(*ssa.Call)
+			if !ok {
+				continue
+			}
+			bi, ok := c.Call.Value.(*ssa.Builtin)
+			if !ok || bi.Name() != "append" {
+				continue
+			}
+			sl, ok := c.Call.Args[1].(*ssa.Slice)
+			if !ok {
+				return 0, false
+			}
+			al, ok := sl.X.(*ssa.Alloc)
+			if !ok {
+				return 0, false
+			}
+			w := al.Type().(*types.Pointer).Elem().Underlying().(*types.Array).Len()
+			switch {
+			case li.blocks[b]:
+				for _, lt := range li.latch {
+					if !b.Dominates(lt) {
+						return 0, false
+					}
+				}
+				n += w * trips
+			case b.Dominates(ret):
+				n += w
+			default:
+				return 0, false
+			}
+		}
+	}
+	return n, n > 0
+}
+
+// globalLiteralLen: the length of a package-level slice initialised once, in init, from a literal.
+func globalLiteralLen(prog *ssa.Program, g *ssa.Global) (int64, bool) {
+	if g.Pkg == nil {
+		return 0, false
+	}
+	init := g.Pkg.Func("init")
+	if init == nil {
+		return 0, false
+	}
+	n, stores := int64(-1), 0
+	for _, b := range init.Blocks {
+		for _, ins := range b.Instrs {
+			st, ok := ins.(*ssa.Store)
+			if !ok || st.Addr != ssa.Value(g) {
+				continue
+			}
+			stores++
+			if sl, ok := st.Val.(*ssa.Slice); ok && sl.Low == nil && sl.High == nil {
+				if al, ok := sl.X.(*ssa.Alloc); ok {
+					if at, ok := al.Type().(*types.Pointer).Elem().Underlying().(*types.Array); ok {
+						n = at.Len()
+					}
+				}
+			}
+		}
+	}
+	return n, stores == 1 && n >= 0
 }
